@@ -108,7 +108,48 @@ def c07():
                              'More than one operation per thread and more than three threads are outside the bound.')
 
 
-REGISTRY = {'C07': c07, 'C11': c11, 'C12': c12, 'C15': c15}
+PRELUDES = {  # name -> (number of inodes on the deepest path + leaf = descent-loop iterations, highest node type reachable by one insert)
+    'leaf': (2, 1), 'i4_2': (2, 1), 'i4_3': (2, 1), 'i4_4': (2, 2), 'i16_5': (2, 2), '2lvl': (3, 1), 'collapse': (3, 1), '3lvl': (4, 1), 'sparse': (2, 1)}
+DBKINDS = {'db': 0, 'mutex': 1, 'olc': 2}
+QUICK_TREE = {'get_leaf', 'get_i4_2', 'get_i4_3', 'get_i4_4', 'get_i16_5', 'get_2lvl', 'get_collapse', 'get_3lvl', 'get_sparse',
+              'ins_leaf', 'rem_leaf', 'rem_i4_2', 'ins_i4_3', 'rem_collapse', 'rem_i4_3'}
+
+
+def tree_unit(kind='db', config='base', mnt=2, **kw):
+    return U('tree.cpp', config, defines=['DBKIND=%d' % DBKINDS[kind]], max_node_type=mnt, **kw)
+
+
+def tree_queries(kind='db', config='base', tier_all=None):
+    qs = []
+    sfx = '' if (kind, config) == ('db', 'base') else '-%s-%s' % (kind, config)
+    u1 = tree_unit(kind, config, 1)
+    qs.append(Query('two-keys-get' + sfx, u1, 'h2_get', unwind=10, flags=['--slice-formula'], loop_bounds=[('::(get|insert|remove)_internal', 3)],
+                    tier=tier_all or 'quick', about='from empty: insert(k1), insert(k2), get(q) with k1,k2,q fully symbolic 64-bit keys',
+                    bounds={'symbolic_keys': 3, 'key_bits': 64, 'value_len': 1}))
+    for name, (depth, mnt) in PRELUDES.items():
+        u = tree_unit(kind, config, mnt)
+        for op, what in (('get', 'get(k)'), ('ins', 'insert(k,v) then get(k) and get of every prelude key'), ('rem', 'remove(k) then get(k) and get of every prelude key')):
+            h = '%s_%s' % (op, name)
+            tier = tier_all or ('quick' if h in QUICK_TREE else 'thorough')
+            qs.append(Query(h + sfx, u, h, unwind=10, flags=['--slice-formula'], loop_bounds=[('::(get|insert|remove)_internal', depth + 1)], tier=tier,
+                            about='concrete prelude "%s" then ONE %s with a fully symbolic 64-bit key (and value byte), compared with the map oracle' % (name, what),
+                            bounds={'prelude': name, 'symbolic_ops': 1, 'key_bits': 64, 'value_len': 1, 'max_node_type': mnt}))
+    return qs
+
+
+def c01():
+    qs = tree_queries('db', 'base')
+    return Check('C01', 'model_checking', qs,
+                 assumptions=['switch cases on node types above the stated per-query bound are replaced by assert(false) (checked cut)',
+                              'tag/untag of node pointers (basic_node_ptr::tag_ptr/type/ptr) are replaced by pointer-arithmetic equivalents with an alignment assertion'],
+                 explanation='L3: from the empty index two fully symbolic keys plus a symbolic lookup; then a catalogue of concrete trees (root leaf, I4 with 2/3/4 leaves, '
+                             'min-size I16, two- and three-level trees with key prefixes, a two-child root that collapses onto an inode) on which ONE operation runs with a fully '
+                             'symbolic 64-bit key, so every way a key can leave the tree (prefix split at any byte, leaf split at any depth, add, grow, duplicate; remove/shrink/collapse) '
+                             'is decided for all 2^64 keys by one SAT query per (tree, operation). Histories longer than prelude + one symbolic operation, '
+                             'more than one simultaneously symbolic key on a non-empty tree, and byte-string keys are outside these queries.')
+
+
+REGISTRY = {'C01': c01, 'C07': c07, 'C11': c11, 'C12': c12, 'C15': c15}
 
 
 def get(pid):
